@@ -38,6 +38,15 @@ async fn handle_connection(mut socket: TcpStream, controller: Arc<NodeController
 
         let frame_len = u32::from_le_bytes(len_buf) as usize;
         if frame_len == 0 || frame_len > MAX_FRAME_LEN {
+            // The peer sends the body it announced. Skip it, so that the stream stays aligned
+            // on frame boundaries; otherwise the body would be parsed as further frames.
+            let mut remaining = frame_len;
+            let mut sink = [0u8; 4096];
+            while remaining > 0 {
+                let n = remaining.min(sink.len());
+                socket.read_exact(&mut sink[..n]).await?;
+                remaining -= n;
+            }
             send_response(&mut socket, "ERR invalid frame length").await?;
             continue;
         }
